@@ -28,7 +28,7 @@ func (fs TarWriter) CreateDir(n NodeDirectory) error {
 		Name:     n.Name,
 		Uid:      n.UID,
 		Gid:      n.GID,
-		Mode:     int64(n.Mode),
+		Mode:     tarMode(n.Mode),
 		ModTime:  n.MTime,
 		Xattrs:   n.Xattrs,
 		Format:   fs.format,
@@ -42,7 +42,7 @@ func (fs TarWriter) CreateFile(n NodeFile) error {
 		Name:     n.Name,
 		Uid:      n.UID,
 		Gid:      n.GID,
-		Mode:     int64(n.Mode),
+		Mode:     tarMode(n.Mode),
 		ModTime:  n.MTime,
 		Size:     int64(n.Size),
 		Xattrs:   n.Xattrs,
@@ -62,12 +62,19 @@ func (fs TarWriter) CreateSymlink(n NodeSymlink) error {
 		Name:     n.Name,
 		Uid:      n.UID,
 		Gid:      n.GID,
-		Mode:     int64(n.Mode),
+		Mode:     tarMode(n.Mode),
 		ModTime:  n.MTime,
 		Xattrs:   n.Xattrs,
 		Format:   fs.format,
 	}
 	return fs.w.WriteHeader(hdr)
+}
+
+// tarMode returns the mode value for a tar header. Go's os.FileMode has the set-id
+// and sticky bits in the upper half where no tar reader looks for them, they are
+// added in the position tar uses (04000, 02000, 01000).
+func tarMode(m os.FileMode) int64 {
+	return int64(m) | int64(FilemodeToStatMode(m)&07000)
 }
 
 // We're not using os.Filemode here but the low-level system modes where the mode bits
@@ -84,7 +91,7 @@ func (fs TarWriter) CreateDevice(n NodeDevice) error {
 		Name:     n.Name,
 		Uid:      n.UID,
 		Gid:      n.GID,
-		Mode:     int64(n.Mode),
+		Mode:     tarMode(n.Mode),
 		ModTime:  n.MTime,
 		Xattrs:   n.Xattrs,
 		Devmajor: int64(n.Major),
@@ -100,7 +107,7 @@ func (fs TarWriter) Close() error {
 // TarReader uses a GNU tar archive as source for a tar operation (to produce
 // a catar).
 type TarReader struct {
-	r *gnutar.Reader
+	r    *gnutar.Reader
 	root *File
 }
 
@@ -122,7 +129,7 @@ func NewTarReader(r io.Reader, opts TarReaderOptions) *TarReader {
 		}
 	}
 	return &TarReader{
-		r: gnutar.NewReader(r),
+		r:    gnutar.NewReader(r),
 		root: root,
 	}
 }
